@@ -4,7 +4,8 @@
 def gen_scenario(rng, big=False):
     n = rng.choice([1, 2, 3, 3, 4, 5])
     cfg = {
-        "seed": rng.randrange(1 << 40), "tick_us": rng.choice([500, 1000, 1000, 2000, 3000, 7000]),
+        "seed": rng.choice([0, 1, (1 << 64) - 1, (1 << 63), rng.randrange(1 << 64)]) if rng.random() < 0.25
+        else rng.randrange(1 << 40), "tick_us": rng.choice([500, 1000, 1000, 2000, 3000, 7000]),
         "min_ms": rng.choice([0, 0, 1, 3]), "curve": rng.choice([5.0, 1.0, 0.2, 30.0]),
         "fail": rng.choice([0.0, 0.0, 0.05, 0.3]), "repair": rng.choice([1.0, 0.5, 0.1]),
         "random_order": rng.random() < 0.5, "tcp_cap": rng.choice([1, 2, 4, 64]), "udp_cap": rng.choice([1, 2, 64]),
